@@ -326,6 +326,33 @@ func (d *decoder) conv(raw any) (any, error) {
 			}
 			return v, nil
 		}
+		if id, ok := x["win"]; ok {
+			// a window onto an array defined earlier: shares its backing array
+			// (and its capacity) with it
+			base, ok := d.defs[fmt.Sprint(id)].([]any)
+			if !ok {
+				return nil, fmt.Errorf("win %v: no such array", id)
+			}
+			lo, hi := 0, len(base)
+			if n, ok := x["lo"].(json.Number); ok {
+				v, _ := n.Int64()
+				lo = int(v)
+			}
+			if n, ok := x["hi"].(json.Number); ok {
+				v, _ := n.Int64()
+				hi = int(v)
+			}
+			if lo < 0 {
+				lo = 0
+			}
+			if hi > len(base) {
+				hi = len(base)
+			}
+			if lo > hi {
+				lo = hi
+			}
+			return base[lo:hi], nil
+		}
 		if id, ok := x["def"]; ok {
 			v, err := d.conv(x["v"])
 			if err != nil {
